@@ -105,3 +105,46 @@ for dt in (DebugTrail.DISABLE, DebugTrail.FIRST, DebugTrail.ALL):
                      instance_kwargs={dt.name: {"debug_trail": ("const", dt)}}, any_closure=True),
              params={"data": "D"}, post=post, loops=LOOPS, clause_props=CP,
              cover=["returned", "raised", f"raised and {IS_MAP}"])
+
+
+# ================================================================================================ dumpers
+# the same DictSpec with the key / value dumpers; the dumped object is a mapping (precondition); ALL raises an exception group
+def _d(text):
+    return text.replace("key_loader", "key_dumper").replace("value_loader", "value_dumper")
+
+
+D_POST = {
+    "accept-iff": _d(f"returned == ({ALL_OK})"),
+    "result-class": "implies(returned, type(result) is dict and is_fresh(result))",
+    "value-keys": _d(f"implies(returned, {result_inv(N)[0]})"),
+    "value-items": _d(f"implies(returned, {result_inv(N)[1]})"),
+}
+D_POST_DISABLE = {"first-error": _d(POST_DISABLE["first-error"]).replace(ITEM_FAIL, "raised")}
+D_POST_FIRST = {"first-error": _d(POST_FIRST["first-error"]).replace(ITEM_FAIL, "raised")}
+D_POST_ALL = {"agg-class": "implies(raised, type(exc) is CompatExceptionGroup)"}
+for _k, _v in agg(SUB, N).items():
+    D_POST_ALL["agg-" + _k] = _d(f"implies(raised, {_v})")
+D_CP = {"accept-iff": ["C02", "C06"], "result-class": ["C02", "C20"], "value-keys": ["C02", "C06", "C01"], "value-items": ["C02", "C06", "C01"],
+        "first-error": ["C05", "C06"], "agg-class": ["C05", "C06"], "agg-sound": ["C05"], "agg-complete-key": ["C05", "C06"],
+        "agg-complete-val": ["C05", "C06"], "agg-once": ["C05"], "agg-rank-bound": ["C05"], "modifies-nothing": ["C20"]}
+D_ITEMS_OK_UPTO = _d(ITEMS_OK_UPTO)
+D_LOOPS = {
+    ("dict_dumper_dt_disable", 0): LoopSpec(inv=[D_ITEMS_OK_UPTO] + [_d(x) for x in result_inv("_i")]),
+    ("dict_dumper_dt_first", 0): LoopSpec(inv=[D_ITEMS_OK_UPTO] + [_d(x) for x in result_inv("_i")]),
+    ("dict_dumper_dt_all", 0): LoopSpec(
+        havoc_trails=True,
+        inv=[f"(len(errors) == 0) == {D_ITEMS_OK_UPTO}"] +
+            [_d(f"implies(len(errors) == 0, {x})") for x in result_inv("_i")] +
+            [_d(x) for x in agg("errors", "_i").values()]),
+}
+for dt in (DebugTrail.DISABLE, DebugTrail.FIRST, DebugTrail.ALL):
+    post = dict(D_POST)
+    post.update({"DISABLE": D_POST_DISABLE, "FIRST": D_POST_FIRST, "ALL": D_POST_ALL}[dt.name])
+    contract(F, "DictProvider._make_dumper", name=f"{F}:DictProvider._make_dumper[{dt.name}]",
+             props=["C01", "C02", "C05", "C06", "C20"],
+             via=Via("DictProvider._make_dumper", {dt.name: lambda m: m.DictProvider()},
+                     kwargs={"key_dumper": "DUMP", "value_dumper": "DUMP"},
+                     instance_kwargs={dt.name: {"debug_trail": ("const", dt)}}, any_closure=True),
+             params={"data": "D"}, requires=[IS_MAP], post=post, loops=D_LOOPS, clause_props=D_CP,
+             cover=["returned", "raised"],
+             notes=["the dumped object is a mapping (precondition: dumpers are applied to values of the declared type)"])
